@@ -264,4 +264,27 @@ CLAIMS["C08"] = {
     "ref": "DESIGN.md section 5 C08",
 }
 
+CLAIMS["C01"] = {
+    "text": "Decides that the tool's own failure sites are unreachable - not termination or totality of arbitrary code, which are undecidable. For every "
+            "package and option set: (a) the dispatchers over mypy expression / type / node classes (expression->type helper, literal helper, default-value "
+            "walk, argument kinds, assignment targets, generic base classes, alias table) are run on every concrete class of the installed mypy's class model "
+            "and the class sets arriving at each call site are compared with the classes they raise on; (b) every enter_ handler accepts every parent the "
+            "walker's child selection can put below it and pushes exactly once, every leave_ handler pops exactly once; (c) every type kind the pipeline "
+            "constructs has a rendering branch, literal lookup tables are total on their key domain; (d) every raise / assert of the package is the documented "
+            "rejection, option parsing, decided unreachable by (a)-(c), or covered by a named invariant or library fact (inventory with counts per function: a "
+            "new raise is reported); (e) every constant-index subscript has a proven length bound (shape of the defining expression, dominating guards, tuple "
+            "types from mypy) or a named invariant; (f) every while loop has a variant and every self-recursive call descends structurally; (g) mypy, run as a "
+            "library on the repository, reports no attribute / call / index error against the installed library versions. Nine crash classes found this way "
+            "were reproduced with the real CLI and repaired ('return a + b', 'self.d[k] = 1', 'class Ints(Sequence[int])', 'helpers.helper()', enum methods, "
+            "'X: Final = 1', internal superclass of another library, unresolved numpydoc type names, CallableType.bound_args); two remain as listed findings "
+            "(PEP 695 class with a Sequence base; self-inlining through the fuzzy class lookup). Exceptions raised inside mypy / griffe / the standard library, "
+            "KeyError of dictionary subscripts with non-constant keys, attribute errors on values whose class the library model does not resolve, and resource "
+            "exhaustion are not decided.",
+    "note": TRUST + "Library facts (each one line in LENGTH_INVARIANTS / RAISE_CLASSES / TERM_EXCEPTIONS of sa/rules/c01.py) are assumptions about mypy and griffe, listed in the evidence. "
+            "The raise inventory is fail-closed: an additional raise statement in a triaged function is reported until it is triaged.",
+    "technique": "partitioned abstract interpretation over the library's class model (dispatch totality, stack shapes) + length-bound dataflow for subscripts + "
+                 "raise inventory + structural termination lint + mypy-as-library diagnostics",
+    "ref": "DESIGN.md section 5 C01",
+}
+
 NOT_APPLICABLE = {}
